@@ -88,6 +88,8 @@ def conf (w : World) : Ty → Obj → Bool
   | .wrap _ t, x => conf w t x
   | .cls c, .inst c' fs => c == c' && confF w (w.fields c) fs
   | .td c, .dict kvs => confTD w (w.fields c) kvs
+  | .union _ hn, .none => hn
+  | .union cs _, .inst c fs => cs.contains c && confF w (w.fields c) fs
   | _, _ => false
 termination_by t x => (sizeOf x, sizeOf t)
 def confL (w : World) (t : Ty) : List Obj → Bool
